@@ -660,13 +660,16 @@ def bNop (s : VM) : VM × Res := okRes s
 
 /- `bindProc` and its `for i, elem := range proc` loop, structurally recursive on one
 fuel argument (one unit per element visited and per nested call); each element is read at
-iteration time, as Go does, because nested calls may write into the same store. -/
+iteration time, as Go does, because nested calls may write into the same store.  Every
+procedure (position and length of its body) is visited once: `seen` in the Go code. -/
 mutual
 def bindProc : Nat → VM → (ref off len : Nat) → (depth : Nat) → VM × Res
   | 0, s, _, _, _, _ => (s, .fuel)
   | fuel + 1, s, ref, off, len, depth =>
     if depth > maxBindDepth then psErr s "limitcheck"
-    else bindLoop fuel s ref off depth 0 len
+    else if len == 0 then okRes s
+    else if s.bindSeen.contains (ref, off, len) then okRes s
+    else bindLoop fuel { s with bindSeen := (ref, off, len) :: s.bindSeen } ref off depth 0 len
 def bindLoop : Nat → VM → (ref off depth i todo : Nat) → VM × Res
   | 0, s, _, _, _, _, _ => (s, .fuel)
   | _ + 1, s, _, _, _, _, 0 => okRes s
@@ -681,12 +684,10 @@ def bindLoop : Nat → VM → (ref off depth i todo : Nat) → VM × Res
           bindLoop fuel (s.setCell ref (.objs ((s.getObjs ref).setIfInBounds (off + i) (.builtin b)))) ref off depth (i + 1) todo
         | _ => bindLoop fuel s ref off depth (i + 1) todo
       | .proc r o l =>
-        let s1 := s.setCell ref (.objs ((s.getObjs ref).setIfInBounds (off + i) .file))
-        let (s2, res) := bindProc fuel s1 r o l (depth + 1)
-        let s3 := s2.setCell ref (.objs ((s2.getObjs ref).setIfInBounds (off + i) (.proc r o l)))
+        let (s2, res) := bindProc fuel s r o l (depth + 1)
         match res with
-        | .ok => bindLoop fuel s3 ref off depth (i + 1) todo
-        | e => (s3, e)
+        | .ok => bindLoop fuel s2 ref off depth (i + 1) todo
+        | e => (s2, e)
       | _ => bindLoop fuel s ref off depth (i + 1) todo
 end
 
@@ -697,7 +698,9 @@ def heapSlots (s : VM) : Nat :=
 def bBind (s : VM) : VM × Res :=
   match s.stack with
   | [] => psErr s "stackunderflow"
-  | .proc r o l :: _ => bindProc ((heapSlots s + 2) * (maxBindDepth + 3)) s r o l 0
+  | .proc r o l :: _ =>
+    let (s', res) := bindProc ((heapSlots s + 2) * (maxBindDepth + 3)) { s with bindSeen := [] } r o l 0
+    ({ s' with bindSeen := [] }, res)
   | _ => psErr s "typecheck"
 
 end PsVerif.Model
